@@ -294,7 +294,7 @@ def r3_resolver(ctx):
                 for p in sym.walk(pc):
                     r = ret_of(p)
                     # canonical form of `n.level <= current_level` is `current_level >= n.level`
-                    if r is not None and r[0] == "bin" and r[1] == "Ge" and ends_with_fields(r[3], "level") and upvar_of(pc, r[2]) == "current_level":
+                    if r is not None and r[0] == "bin" and r[1] == "Ge" and ends_with_fields(r[3], "level") and upvar_of(pc, r[2]) is not None:
                         ok = True
             ctx.ob("R3", "pop:retain-predicate", ok, "entries kept are those with level <= new level (operator and operand order)", config=cfg)
             ok2 = any(any(name_is(c[2], "rposition") for c in calls(p)) for p in ctx.paths(pb))
